@@ -34,8 +34,10 @@ LEVEL_TEXT = ('Lean 4 theorems over a line-by-line heap model of plasTeX/DOM (Mo
               'outside the subtree; corollaries at heap level: text content preserved, no adjacent text nodes, idempotent. '
               'compareDocumentPosition_agrees_all: for every pair of nodes whose parent chains are real list memberships the answer equals '
               'the list model comparePos (same node, adjacent siblings, ancestor/descendant, two branches of one tree decided at the lowest '
-              'common ancestor, different trees). Carried by correspondence only: histories that contain normalize or cloneNode steps (kept as '
-              'an explicit statement) and edits through attribute-held (self) fragments.')
+              'common ancestor, different trees). Carried by correspondence only (explicit statements): histories that contain normalize or '
+              'cloneNode steps (NoAlias, owner documents and well-formedness are proved to be kept), isEqualNode of a deep clone (model eqNode '
+              'against == on the real objects at every clone), normalisation of fragments held under other attribute keys, and edits through '
+              'attribute-held (self) fragments.')
 LEVEL_NOTE = ('Trusted: Lean kernel (axioms propext, Classical.choice, Quot.sound), the correspondence harness (state-deduplicated exhaustive histories, '
               'random histories to length 40), CPython. Editing theorems assume NoAlias (no node uses attributes[self] as its child list); the view '
               'theorems do not. Theorems about clone/normalize/compare are stated for every unfolding depth below the recursion fuel of the driver '
@@ -47,10 +49,12 @@ ASSUMPTIONS = ['arguments are nodes (not plain str); every node is created by th
                'operations that make the Python loop iterate a list it extends (fragment into itself) are not executed on the real code',
                'a history stops (both sides answer `cyclic`) as soon as a node becomes its own descendant; generators avoid such operations',
                'editing theorems assume no attributes[self] aliasing (NoAlias); histories with aliasing are compared with the model and a Python oracle only']
-RULE = ('exhaustive: breadth-first over all pool operations, histories reaching an already seen full observation are not extended; random: seeded '
+RULE = ('oracles besides the list model: at every cloneNode(True) the clone must be == its original (both directions, isEqualNode) and share no node with it; after every normalize no two text nodes may be adjacent anywhere below the node, attribute-held fragments included; an attributes[self] fragment must list exactly the children of its element and belong to one element only; '
+        'exhaustive: breadth-first over all pool operations, histories reaching an already seen full observation are not extended; random: seeded '
         'histories to length 40 with ~15% malformed operations (out-of-range indexes, attached arguments, absent references); '
         'non-trivial = spec defined, no error, and at least one node has two or more children or a grandchild; distinct = distinct request line')
-EXHAUSTIVE = {'quick': 'pool E0 E1 T T F (+ document): every history of length <= 2 over the full operation alphabet and every history of '
+EXHAUSTIVE = {'quick': 'three more enumerations over the pool E0 E1 T T F start from an attribute-held fragment (empty and pre-filled `self` fragment = the child list; a fragment with adjacent text under the key `title` of an element that never had a child list), every operation at length 1 and every enabled one at length 2 after the prefix; '
+                       'pool E0 E1 T T F (+ document): every history of length <= 2 over the full operation alphabet and every history of '
                        'length <= 4 over the precondition-enabled alphabet, breadth-first, a history whose full observation (graph + views) was '
                        'already reached by an earlier history is not extended; the run records exhaustive:capped if the case cap cut it short',
               'thorough': 'pool E0 E1 T T F: length <= 3 full alphabet, length <= 4 enabled alphabet; pool E0 E1 T F: length <= 2 full alphabet, '
@@ -73,6 +77,7 @@ class World:
         self.doc = D.Document()
         self.reg = [self.doc]
         self.spent = set()       # fragments already given as an argument (only used to steer generation)
+        self.flags = []          # oracle observations made at cloneNode(True) / normalize time
         for w in pool:
             if w == 'F':
                 self.reg.append(self.doc.createDocumentFragment())
@@ -174,12 +179,32 @@ class World:
                     return 'bad'
                 s.extend(o)
             elif k == 'nm':
-                r[a[0]].normalize()
+                try:
+                    r[a[0]].normalize()
+                except Exception:
+                    self.flags.append('n-')
+                    raise
+                self.flags.append('n%d' % (0 if self.adjacent_below(r[a[0]]) else 1))
             elif k == 'cl':
                 s = r[a[0]]
-                r.append(s.cloneNode(bool(a[1])))
+                c = s.cloneNode(bool(a[1]))
+                r.append(c)
+                if a[1]:
+                    def bit(f):
+                        try:
+                            return '1' if f() else '0'
+                        except Exception:
+                            return '0'
+                    self.flags.append('q%s%sd%s' % (bit(lambda: c == s and s.isEqualNode(c)), bit(lambda: s == c and c.isEqualNode(s)),
+                                                    bit(lambda: self.disjoint_below(c, s))))
             elif k == 'sa':
+                # the model takes the fragment as the child list from now on; the real code does so only when the element's
+                # child list has not been materialised yet (also `==` and cloneNode materialise it): other histories are not valid
+                if self.is_text(r[a[0]]) or self.is_frag(r[a[0]]) or hasattr(r[a[0]], '_dom_childNodes'):
+                    return 'bad'
                 r[a[0]].attributes['self'] = r[a[1]]
+            elif k == 'st':
+                r[a[0]].attributes['title'] = r[a[1]]
             else:
                 raise ValueError(op)
             return 'ok'
@@ -189,6 +214,8 @@ class World:
             return 'NotFoundErr'
         except AttributeError:
             return 'AttributeError'
+        except TypeError:
+            return 'TypeError'
         except RecursionError:
             return 'RecursionError'
 
@@ -196,12 +223,65 @@ class World:
         a = self.cnlist(new)
         return bool(a) and (a is self.cnlist(s) or (getattr(s, 'attributes', None) or {}).get('self') is new)
 
+    def attr_node(self, n, key):
+        a = None if self.is_text(n) else getattr(n, 'attributes', None)
+        v = a.get(key) if a else None
+        return v if isinstance(v, self.D.Node) else None
+
+    def below(self, s, with_title):
+        """everything reachable from s through child lists and attribute-held fragments"""
+        seen, ids = [s], {id(s)}
+
+        def visit(n):
+            nxt = self.kids(n) + [x for x in ([self.attr_node(n, 'self')] + ([self.attr_node(n, 'title')] if with_title else []))
+                                  if x is not None]
+            for c in nxt:
+                if id(c) not in ids:
+                    ids.add(id(c)); seen.append(c)
+                    visit(c)
+        visit(s)
+        return seen
+
+    def adjacent_below(self, s):
+        for n in self.below(s, True):
+            prev = False
+            for c in self.kids(n):
+                cur = self.is_text(c)
+                if cur and prev:
+                    return True
+                prev = cur
+        return False
+
+    def disjoint_below(self, c, s):
+        orig = {id(x) for x in self.below(s, False)}
+        return not any(id(x) in orig for x in self.below(c, False))
+
+    def edges(self, n):
+        t = self.attr_node(n, 'title')
+        return self.kids(n) + ([t] if t is not None else [])
+
+    def cyclic_from(self, starts):
+        """does one of the nodes whose list just changed reach itself?  (equivalent to `cyclic` when the state before the
+        operation was acyclic: every new edge leaves one of these nodes)"""
+        for u in starts:
+            seen = set()
+            stack = list(self.edges(u))
+            while stack:
+                n = stack.pop()
+                if n is u:
+                    return True
+                if id(n) in seen:
+                    continue
+                seen.add(id(n))
+                stack.extend(self.edges(n))
+        return False
+
     def cyclic(self):
-        """is some node its own descendant (through the child lists)?"""
+        """is some node its own descendant (through the child lists and the title attribute)?"""
         nodes = self.order()
         rem = {id(n) for n in nodes}
         while True:
-            keep = [n for n in nodes if id(n) in rem and any(id(c) in rem for c in self.kids(n))]
+            keep = [n for n in nodes if id(n) in rem and any(id(c) in rem for c in self.edges(n))]
             if len(keep) == len(rem):
                 return bool(rem)
             rem = {id(n) for n in keep}
@@ -257,9 +337,10 @@ class World:
                     return I(f())
                 except Exception as e:
                     return 'raised-' + type(e).__name__
-            out.append('%s:%s:%s:%s:%s,%s,%s,%s:%s:%s:%s' % (
+            out.append('%s:%s:%s:%s:%s,%s,%s,%s:%s:%s:%s:%s:%s' % (
                 head, L(self.kids(n)), I(n.parentNode), I(n.ownerDocument),
-                V(lambda: n.firstChild), V(lambda: n.lastChild), V(lambda: n.previousSibling), V(lambda: n.nextSibling), tc, g0, g1))
+                V(lambda: n.firstChild), V(lambda: n.lastChild), V(lambda: n.previousSibling), V(lambda: n.nextSibling), tc, g0, g1,
+                I(self.attr_node(n, 'self')), I(self.attr_node(n, 'title'))))
         sub = ordl[:7]
         rows = []
         for a in sub:
@@ -272,7 +353,7 @@ class World:
                 except Exception as e:      # observation, not a harness failure
                     row += 'raised-' + type(e).__name__ + '.'
             rows.append(row)
-        return '%s %s # %s' % (err, ' '.join(out), ' '.join(rows))
+        return '%s %s # %s @ %s' % (err, ' '.join(out), ' '.join(rows), ' '.join(self.flags))
 
     def _chain_ok(self, n):
         k = 0
@@ -297,8 +378,12 @@ def run_history(line):
         err = w.run(op)
         if err in ('RecursionError', 'bad'):
             break
-        if op[0] not in ('pp', 'rm') and w.cyclic():
-            return w, 'cyclic'      # the recursive views of the real code would not return: the history stops here
+        if op[0] in ('ap', 'in', 'si', 'ib', 'ia', 'rp', 'ex', 'xn', 'sa', 'st') and 0 <= int(op[1]) < len(w.reg):
+            s = w.reg[int(op[1])]
+            f = w.attr_node(s, 'self')
+            holders = [n for n in w.order() if w.attr_node(n, 'self') is s] if w.is_frag(s) else []
+            if w.cyclic_from([s] + ([f] if f is not None else []) + holders):
+                return w, 'cyclic'      # the recursive views of the real code would not return: the history stops here
     return w, err
 
 
@@ -308,15 +393,18 @@ def impl(case, aux):
     w, err = run_history(case.line)
     if err == 'cyclic':
         return 'cyclic'
+    if err == 'bad':
+        return 'invalid'          # not a history the model is meant for (e.g. `sa` on an element whose child list exists)
     return w.dump(err)
 
 
 # ---------------------------------------------------------------- judging
 
 def _parse_dump(s):
-    head, _, cmp_ = s.partition(' # ')
+    body, _, flags = s.partition(' @ ')
+    head, _, cmp_ = body.partition(' # ')
     toks = head.split(' ')
-    return toks[0], [t.split(':') for t in toks[1:]], cmp_.split(' ') if cmp_ else []
+    return toks[0], [t.split(':') for t in toks[1:]], cmp_.split(' ') if cmp_ else [], flags.split()
 
 
 def inv_problem(nodes):
@@ -329,8 +417,9 @@ def inv_problem(nodes):
             continue
         if len(set(kids)) != len(kids):
             return 'node %d lists a child twice: %s' % (i, f[1])
+        okp = (str(i), f[8]) if len(f) > 8 and f[8] not in ('-', '?') else (str(i),)   # a `self` fragment also counts as the list
         for k in kids:
-            if k == '?' or nodes[int(k)][2] != str(i):
+            if k == '?' or nodes[int(k)][2] not in okp:
                 return 'child %s of node %d has parentNode %s' % (k, i, nodes[int(k)][2] if k != '?' else '?')
             if nodes[int(k)][0][0] == 'F':
                 return 'node %d lists a fragment' % i
@@ -354,6 +443,9 @@ def oracle_problem(nodes):
     def elems(i, tag, d=0):
         if d > 60: raise RecursionError
         r = []
+        b = nodes[i][9] if len(nodes[i]) > 9 else '-'
+        if b not in ('-', '?'):                 # elements inside a fragment held under another attribute key come first
+            r += elems(int(b), tag, d + 1)
         for k in kids[i]:
             if nodes[k][0].startswith('E' + tag + '.'):
                 r.append(k)
@@ -372,6 +464,31 @@ def oracle_problem(nodes):
         fl = f[4].split(',')
         if fl[0] != (str(kids[i][0]) if kids[i] else '-') or fl[1] != (str(kids[i][-1]) if kids[i] else '-'):
             return 'firstChild/lastChild of node %d are %s,%s but its children are %s' % (i, fl[0], fl[1], f[1])
+    # an attribute-held `self` fragment is the child list of its element, and no two elements share one
+    holders = {}
+    for i, f in enumerate(nodes):
+        a = f[8] if len(f) > 8 else '-'
+        if a in ('-', '?'):
+            continue
+        if nodes[int(a)][1] != f[1]:
+            return ("node %d holds fragment %s as attributes['self'] but lists [%s] while the fragment lists [%s]"
+                    % (i, a, f[1], nodes[int(a)][1]))
+        if a in holders:
+            return "nodes %d and %d share the same attributes['self'] fragment %s (a clone is not disjoint from its original)" % (holders[a], i, a)
+        holders[a] = i
+    return ''
+
+
+def flags_problem(flags):
+    """observations logged when the operation happened: deep clone equal and disjoint, normalize leaves no adjacent text"""
+    for k, fl in enumerate(flags):
+        if fl.startswith('q'):
+            if fl[1:3] != '11':
+                return 'deep clone #%d is not equal to its original (== / isEqualNode, both directions: %s)' % (k, fl[1:3])
+            if fl[3:] != 'd1':
+                return 'deep clone #%d shares a node with its original' % k
+        elif fl == 'n0':
+            return 'normalize #%d left adjacent text nodes below the node (child lists and attribute-held fragments)' % k
     return ''
 
 
@@ -380,19 +497,22 @@ def judge(o):
     o.prop_ok = True
     if o.impl == 'cyclic' or o.model == 'cyclic':
         return
+    if o.impl == 'invalid':
+        o.corr_ok = True
+        return
     if o.impl.startswith('err:'):
         o.prop_ok = False
         o.note = 'implementation did not finish'
         return
-    ie, inodes, icmp = _parse_dump(o.impl)
-    p = oracle_problem(inodes)
+    ie, inodes, icmp, iflags = _parse_dump(o.impl)
+    p = oracle_problem(inodes) or flags_problem(iflags)
     if p:
         o.prop_ok = False
         o.note = p
         return
     if o.spec in ('-', ''):
         return
-    se, snodes, scmp = _parse_dump(o.spec)
+    se, snodes, scmp, _ = _parse_dump(o.spec)
     p = inv_problem(inodes)
     if p:
         o.prop_ok = False; o.note = 'invariant: ' + p
@@ -403,7 +523,8 @@ def judge(o):
     if len(inodes) != len(snodes):
         o.prop_ok = False; o.note = 'number of reachable nodes %d, list model %d' % (len(inodes), len(snodes))
         return
-    names = ['kind/name/text', 'child list', 'parentNode', 'ownerDocument', 'first/last/previous/next', 'textContent', 'elements n0', 'elements n1']
+    names = ['kind/name/text', 'child list', 'parentNode', 'ownerDocument', 'first/last/previous/next', 'textContent', 'elements n0', 'elements n1',
+             'self attribute', 'title attribute']
     for i, (a, b) in enumerate(zip(inodes, snodes)):
         for j, (x, y) in enumerate(zip(a, b)):
             if y != '*' and x != y:
@@ -421,7 +542,7 @@ def judge(o):
 def nontrivial(o):
     if o.spec in ('-', '') or not o.impl.startswith('ok '):
         return False
-    _, nodes, _ = _parse_dump(o.impl)
+    _, nodes, _, _ = _parse_dump(o.impl)
     for f in nodes:
         ks = [k for k in f[1].split(',') if k]
         if len(ks) >= 2:
@@ -485,7 +606,7 @@ def makes_cycle(w, op):
     if k == 'xn':
         s = w.reg[int(op[1])]
         return any(reaches(w, it, s) for it in w.kids(w.reg[int(op[2])]))
-    if k == 'sa':
+    if k in ('sa', 'st'):
         return reaches(w, w.reg[int(op[2])], w.reg[int(op[1])])
     return False
 
@@ -547,13 +668,13 @@ def line_of(pool, ops):
     return ' '.join(pool) + ''.join(' ; ' + ' '.join(op) for op in ops)
 
 
-def exhaustive(ctx, pool, depth_full, depth_enabled, cap):
-    """breadth-first over histories; a history whose full observation was seen before is not extended"""
+def exhaustive(ctx, pool, depth_full, depth_enabled, cap, prefix=()):
+    """breadth-first over histories (all starting with `prefix`); a history whose full observation was seen before is not extended"""
     D = _dom()
     recv = [i + 1 for i, w in enumerate(pool) if w[0] in 'EF']
     full = alphabet(pool, recv, True)
     seen = set()
-    frontier = [[]]
+    frontier = [[list(op) for op in prefix]]
     total = 0
     for depth in range(1, depth_enabled + 1):
         nxt = []
@@ -581,7 +702,7 @@ def exhaustive(ctx, pool, depth_full, depth_enabled, cap):
                 if total >= cap:
                     ctx.count('exhaustive:capped')
                     return
-                key = w.dump('')
+                key = w.dump('').partition(' @ ')[0]      # the state, without the oracle flags logged on the way
                 if key not in seen and e not in ('diverge', 'RecursionError'):
                     seen.add(key)
                     nxt.append(hist + [op])
@@ -602,14 +723,14 @@ def random_history(rng, maxlen, malformed):
     line0 = ' '.join(pool)
     ops = []
     w = World(pool)
-    alias = False   # attribute-held fragments only through the fixed corpus histories (cycles through the alias are hard to exclude)
+    alias = rng.random() < 0.3      # histories with attribute-held fragments (`self` = the child list, `title` = another key)
     touched = set()
     n = rng.randint(1, maxlen)
     tries = 0
     while len(ops) < n and tries < n * 30:
         tries += 1
         nreg = len(w.reg)
-        k = rng.choice(['ap', 'ap', 'in', 'in', 'pp', 'rm', 'ib', 'ia', 'rp', 'si', 'ex', 'xn', 'nm', 'cl', 'ap', 'in'] + (['sa'] if alias else []))
+        k = rng.choice(['ap', 'ap', 'in', 'in', 'pp', 'rm', 'ib', 'ia', 'rp', 'si', 'ex', 'xn', 'nm', 'cl', 'ap', 'in'] + (['sa', 'st', 'sa', 'st', 'nm', 'cl'] if alias else []))
         recv = [i for i in range(nreg) if not w.is_text(w.reg[i])]
         s = rng.choice(recv)
         c = rng.randrange(1, nreg)
@@ -631,13 +752,17 @@ def random_history(rng, maxlen, malformed):
         elif k == 'nm': op = ['nm', s]
         elif k == 'cl': op = ['cl', rng.randrange(1, nreg), rng.randint(0, 1)]
         else:
-            es = [i for i in range(1, nreg) if i not in touched and not w.is_text(w.reg[i]) and not w.is_frag(w.reg[i])
-                  and not (w.reg[i].attributes and 'self' in w.reg[i].attributes)]
-            fs = [i for i in range(1, nreg) if w.is_frag(w.reg[i]) and not any(
-                (getattr(e, 'attributes', None) or {}).get('self') is w.reg[i] for e in w.reg if not w.is_text(e))]
+            held = lambda f: any(w.attr_node(e, 'self') is f or w.attr_node(e, 'title') is f for e in w.order())
+            fs = [i for i in range(1, nreg) if w.is_frag(w.reg[i]) and not held(w.reg[i])]
+            if k == 'sa':
+                es = [i for i in range(1, nreg) if not w.is_text(w.reg[i]) and not w.is_frag(w.reg[i])
+                      and not hasattr(w.reg[i], '_dom_childNodes') and w.attr_node(w.reg[i], 'self') is None]
+            else:
+                es = [i for i in range(1, nreg) if not w.is_text(w.reg[i]) and not w.is_frag(w.reg[i])
+                      and w.attr_node(w.reg[i], 'title') is None]
             if not es or not fs:
                 continue
-            op = ['sa', rng.choice(es), rng.choice(fs)]
+            op = [k, rng.choice(es), rng.choice(fs)]
         op = [str(x) for x in op]
         if makes_cycle(w, op):
             continue
@@ -647,7 +772,7 @@ def random_history(rng, maxlen, malformed):
         if e == 'bad':
             return line0, ops
         ops.append(op)
-        if op[0] != 'sa':
+        if op[0] not in ('sa', 'st'):
             touched.add(int(op[1]))
             if op[0] == 'cl': touched.add(len(w.reg) - 1)
         if e in ('diverge', 'RecursionError'):
@@ -663,6 +788,12 @@ def generate(ctx):
     else:
         yield from exhaustive(ctx, POOL_X, 3, 4, 200000)
         yield from exhaustive(ctx, POOL_5, 2, 5, 260000)
+    # attribute-held fragments: an empty and a pre-filled fragment as the child list (`self`), and a fragment with
+    # adjacent text under another key of an element that never had a child list
+    ALIAS_POOL = ['E0', 'E1', 'T97', 'T98', 'F']
+    for prefix in ([['sa', '1', '5']], [['ap', '5', '3'], ['sa', '1', '5']],
+                   [['ap', '5', '3'], ['ap', '5', '4'], ['st', '2', '5']]):
+        yield from exhaustive(ctx, ALIAS_POOL, 1, 2 if quick else 3, 3000 if quick else 60000, prefix=prefix)
     n = 2500 if quick else 20000
     for i in range(n):
         # two thirds of the histories stay inside the documented domain to their end (so the list model judges them),
